@@ -68,7 +68,11 @@ class Driver:
     def start(self):
         w = self.w
         sc = w.scenario
-        argv = ["jade", "submit-jobs", w.config_file, "-o", w.output]
+        from .scenario import submit_argv
+
+        argv = submit_argv(sc, w.config_file, w.output)
+        if sc.get("cli_params"):
+            w.probe("params_on_command_line")
         w.run_user_cmd(argv, tag="submit")
         for u in sc.get("user", []):
             self._schedule(u)
